@@ -5,6 +5,12 @@ pub(crate) use caller::CallerInformation;
 use dashmap::DashSet;
 pub(crate) use database::{ActiveInputSessionGuard, QueryDebug};
 pub use input_session::{InputSession, SetInputResult};
+#[cfg(qbice_verif)]
+pub use database::CompressedBackwardEdgeSet;
+#[cfg(qbice_verif)]
+pub use query_lock_manager::{
+    OwnedLock, QueryLock, QueryLockManager as VerifQueryLockManager,
+};
 use qbice_serialize::{Decode, Encode};
 use qbice_stable_hash::{BuildStableHasher, StableHash, StableHasher};
 use qbice_stable_type_id::Identifiable;
